@@ -23,7 +23,24 @@ ASSUMPTIONS = [
     'this equals "(c T + h.c.)/2" only for real c, which is what a Hermitian tensor supplies; the Spec used for '
     'these diagonal patterns is c*T',
 ]
-OPEN_STATEMENTS = []
+OPEN_STATEMENTS = [
+    'jw_exact / jw_majorana_exact / jw_one_body_sound are proved under the decidable hypothesis "exact regime" '
+    '(no non-zero value deleted by the |v| < EQ_TOLERANCE test of +=); without it the statements are false by '
+    'design of the library; the hypothesis is evaluated by the Model on every generated input and counted in the '
+    'distribution (theorem-hypothesis exact-regime)',
+    'jw_two_body_sound (jordan_wigner_two_body denotes c a+_p a+_q a_r a_s + h.c. for all p,q,r,s): NOT proved; '
+    'covered by exact correspondence + Spec oracle on every index tuple below the enumeration bound (all coincidence '
+    'patterns and orders; the pattern histogram is in the evidence) and random tuples with indices < 10',
+    'jw_interaction_op_sound, jw_dch_sound (the symmetrised-coefficient loops equal jw of the tensor formula): NOT '
+    'proved; correspondence + Spec oracle against the tensor formula + exact comparison with the FermionOperator path',
+    'reverse_jw_left_inverse (normal_ordered(reverse_jw(jw A)) = normal_ordered A): NOT proved; correspondence of the '
+    'reverse transform + Spec oracle (the returned FermionOperator acts like the QubitOperator) + exact round trips',
+    'linearity / multiplicativity / dagger-compatibility of jordan_wigner are consequences of jw_exact in the Spec '
+    'semantics (jw_mul_sound, jw_add_sound are the Model-level halves); they are not stated as separate theorems and '
+    'are checked exactly on the implementation\'s values',
+    'jordan_wigner_dual_basis_jellium / jordan_wigner_dual_basis_hamiltonian: no Model (float cos/pi); compared with '
+    'jordan_wigner of the FermionOperator model, tolerance 1e-9',
+]
 
 ERRS = (TypeError, ValueError, IndexError, KeyError, AttributeError, RuntimeError, ZeroDivisionError,
         AssertionError, RecursionError)
@@ -190,7 +207,7 @@ def stream_fermion(ctx):
     b.flush()
 
     rng = rng_for(ctx.seed, 'c04-fermion')
-    n_ops = budget(ctx.tier, 120, 1500)
+    n_ops = budget(ctx.tier, 250, 2000)
     if ctx.drift:
         n_ops = max(n_ops, 500)
     prev = None
@@ -281,7 +298,8 @@ def stream_helpers(ctx):
                 if diag_nonreal:
                     st.count('diagonal-nonreal-coefficient (Spec = c*T)')
                 b.add('jordan_wigner_one_body', case, jQ, {'op': 'c04.one_body', 'p': p, 'q': q, 'c': to_gq(c)},
-                      oracle('fermion', max(p, q) + 1, ['one_body', p, q, to_gq(c)], jQ))
+                      oracle('fermion', max(p, q) + 1, ['one_body', p, q, to_gq(c)], jQ),
+                      regime_req={'op': 'c04.one_body_ok', 'p': p, 'q': q, 'c': to_gq(c)})
     b.flush()
 
     def pattern(p, q, r, s):
@@ -373,7 +391,7 @@ def stream_tensors(ctx):
                 'exactly with jordan_wigner(get_fermion_operator(.)); distinct = distinct tensors')
     b = Batch(ctx, st)
     rng = rng_for(ctx.seed, 'c04-iop')
-    n_iop = budget(ctx.tier, 40, 400)
+    n_iop = budget(ctx.tier, 70, 500)
     if ctx.drift:
         n_iop = max(n_iop, 120)
     for k in range(n_iop):
